@@ -29,7 +29,29 @@ def instances(tier):
         dd = dict(d); dd["EXPECT_FUNC"] = None; dd["VP_REL"] = None
         L.append(Inst("diff-" + n, "C02/diff.c", dd, exclude=("pixman-implementation.c",), unwind=14, unwindset=API_UNWINDSET + ("memcmp.0:40",), objbits=12, timeout=1500,
                       desc={"what": "request template served by this C fast path under chain noop->fast->general vs general alone: bit-identical destination incl. padding; all pixels symbolic", "routine": n}))
+    # SSE2 combiners vs C combiners (x86 intrinsics through models/x86_builtins.c, validated natively by PRECHECK)
+    EX = ("pixman-sse2.c", "pixman-ssse3.c", "pixman-mmx.c")
+    sse = [("add_u", 12, 0, 0, 6, 0), ("src_ca", 1, 1, 0, 5, 0)]
+    if tier == "thorough":
+        sse += [("over_u", 3, 0, 0, 5, 1), ("in_u", 5, 0, 0, 5, 0), ("out_reverse_u", 8, 0, 0, 5, 3), ("xor_u", 11, 0, 0, 5, 2),
+                ("add_ca", 12, 1, 0, 5, 1), ("over_ca", 3, 1, 0, 5, 0), ("add_u_masked", 12, 0, 1, 5, 0)]
+    for nm, op, ca, mk, w, off in sse:
+        L.append(Inst("sse2-combine-%s-w%d-off%d" % (nm, w, off), "C02/sse2_comb.c", {"OP": op, "CA": ca, "MASKED": mk, "W": w, "OFF": off},
+                      simd=True, exclude=EX, models=("env_stubs.c", "x86_builtins.c"), unwind=70, objbits=12, timeout=2400 if tier == "thorough" else 900,
+                      desc={"what": "SSE2 combiner (real pixman-sse2.c, installed by the real constructor) vs the C combiner: bit-identical pixels, nothing outside [0,w); pixels symbolic; head/vector/tail split by width and alignment offset", "routine": "sse2_combine_" + nm}))
     return L
+
+
+def PRECHECK(ctx):
+    """Validate the x86 builtin models against the CPU (native build of the same model file under renamed symbols)."""
+    import os, subprocess
+    from vp import core
+    exe = os.path.join(ctx.work, "validate_builtins")
+    r = subprocess.run(["gcc", "-O1", "-msse2", "-w", os.path.join(core.MODELS, "validate_builtins.c"), "-I" + core.MODELS, "-o", exe], capture_output=True, text=True)
+    if r.returncode != 0:
+        return False, "validate_builtins build failed: " + r.stderr[-500:]
+    r = subprocess.run([exe, str(ctx.seed or 1)], capture_output=True, text=True)
+    return r.returncode == 0, r.stdout.strip()[-300:]
 
 
 TEXT = ("Translation validation by bounded model checking: each selected routine of the C fast-path implementation is compared with the general "
@@ -37,10 +59,11 @@ TEXT = ("Translation validation by bounded model checking: each selected routine
         "fast-path cache cleared in between, a reachability assertion confirming that the fast-path level served the request - and the "
         "destination buffers must be bit-identical including row padding; implementation selection is checked separately: PIXMAN_DISABLE parsing "
         "for a symbolic environment string, and chain assembly incl. 'wholeops' for a menu of settings.")
-NOTE = ("Only the portable C levels (noop, fast, general) are encoded. The MMX/SSE2/SSSE3 levels need models of ~50 x86 intrinsics (and MMX has "
-        "inline assembly); they were not built in the available time, so the SIMD half of the property and pixman_blt/fill across implementations "
-        "are NOT claimed. 3x2 images, 8 routine templates.")
+NOTE = ("SSE2: the 22 unified/component-alpha combiners are reachable through models of the 20 GCC builtins pixman-sse2.c needs "
+        "(models/x86_builtins.c, compared with the real instructions on 20000 vectors at the start of every run); 2 combiners at quick tier, 9 at "
+        "thorough; masked OVER-class combiners do not finish in 900 s. The SSE2 composite/scaling/fill/blt routines, SSSE3 and MMX (inline asm) "
+        "levels and CPU detection are NOT encoded - that part of the property is not claimed. C levels: 3x2 images, 8 routine templates.")
 RULE = "C02 program = one fast-path routine compared against the general path; plus configuration instances."
 BOUNDS = {"images": "3x2 with padding", "routines": "8 of ~150 c_fast_paths entries (2 at quick tier)"}
-OUTSIDE = ["pixman-sse2.c, pixman-ssse3.c, pixman-mmx.c (intrinsics / inline asm not modelled)", "CPU feature detection (cpuid)", "fast-path table entries without a template", "widths beyond 3 pixels"]
+OUTSIDE = ["SSE2 composite, scaling, fill and blt routines; pixman-ssse3.c; pixman-mmx.c (inline asm)", "CPU feature detection (cpuid)", "fast-path table entries without a template", "widths beyond 3 pixels"]
 ASSUMPTIONS = ["allocation succeeds", "getenv stub"]
